@@ -118,7 +118,7 @@ func i64(v int64) *int64 { return &v }
 
 func runC08(c *Ctx) {
 	r := c.R
-	r.SetRule("every bad upload kind (wrong / malformed / wrong-length / empty Content-MD5, declared length longer than the body, body reader failing after k bytes for every k in 0..len and around 32 KiB buffer boundaries, key of 1024 vs 1025 bytes, metadata far above the limit, missing / negative / non-numeric Content-Length, aws-chunked with wrong decoded length or truncated stream, the same for UploadPart, Go PutObject with size != length) x prior state (key absent, key present) x backend (all six) x integrity on/off, each framed by snapshots of GET, HEAD, the key's listing entry, the bucket listing and ListParts; distinct = (backend, integrity, prior state, upload kind, failure point)")
+	r.SetRule("every bad upload kind (wrong / malformed / wrong-length / empty Content-MD5, declared length longer than the body, body reader failing after k bytes for every k in 0..len and around 32 KiB buffer boundaries, key of 1024 vs 1025 bytes, metadata far above the limit, missing / negative / non-numeric Content-Length, aws-chunked with wrong decoded length or truncated stream, the same for UploadPart, Go PutObject with size != length) x prior state (key absent, key present) x backend (all seven configurations) x integrity on/off, each framed by snapshots of GET, HEAD, the key's listing entry, the bucket listing and ListParts; distinct = (backend, integrity, prior state, upload kind, failure point)")
 	r.Exhaustive(true)
 	r.Set("exhaustive_scope", "failure point k = every byte offset 0..len of a 96-byte (quick) / 1024-byte (thorough) body and 12 offsets around the 32 KiB and 64 KiB boundaries of a 70000-byte body, for every backend x integrity setting x prior state x {PUT, UploadPart, Go PutObject}")
 	smallLen := r.Pick(96, 1024)
